@@ -227,6 +227,12 @@ LensR(p, pre, m, f, o, r) ==
                     /\ Ledger(o.post) = Ledger(r.post)
          /\ (res = "ok" /\ m.type \notin DepTypes) =>
                (CallsOf(o.calls, "Transfer") = <<>> /\ CallsOf(o.calls, "Burn") = <<>>)
+         \* what is asked of the ledger, whatever it answers: the depositor (nobody else) is debited exactly the
+         \* stated amount of the stated token, and the same coin is burnt in the module's name
+         /\ \A i \in DOMAIN o.calls :
+               LET c == o.calls[i] IN
+               /\ c.fn = "Transfer" => (m.type \in DepTypes /\ <<c.from, c.to, c.denom, c.amt>> = <<m.from, MODULE_ACC, m.tok, m.amt>>)
+               /\ c.fn = "Burn"     => (m.type \in DepTypes /\ <<c.from, c.denom, c.amt>> = <<MODULE_ACC, m.tok, m.amt>>)
          /\ o.post.bal[MODULE_ACC] = pre.bal[MODULE_ACC]                    \* nothing is left in the module account
          \* a replacement of a deposit speaks for the same burn: token, amount and depositor are the original's
          /\ (res = "ok" /\ m.type = "ReplaceDepositForBurn" /\ m.orig.k = "msg" /\ m.orig.body.k = "burn") =>
